@@ -1,2 +1,20 @@
-// Package c16 holds the workload and monitor for property C16 (see /verif/DESIGN.md §3).
+// Package c16 holds the workload and monitor for property C16 "Listener and service
+// registries never hold duplicates or leftovers" (see /verif/DESIGN.md §3).
+//
+//	c16.go    enumerations (operator sequences, HTTP sequences, failed starts, service
+//	          scenarios, collisions), sharding, replay, witness minimisation
+//	ops.go    one full rig + two logged-in operators; every operation is a real Listener
+//	          package; after each one, at quiescence: running registry == TS_Listeners rows
+//	          (independent connection) == what a connected operator accumulated == what a
+//	          fresh login is replayed; name uniqueness; External routes; HTTP ports; the
+//	          request profile after an Edit
+//	svc.go    1..3 service connections x registration interleavings x disconnect orders;
+//	          after each disconnect: exactly the leaver's agent types / listener kinds /
+//	          ExC2 endpoints+listeners are gone, the others are there and still answer
+//	child.go  every service scenario runs in a child process (this worker binary, the
+//	          scenario as --replay witness, C16_CHILD=1): a teamserver that dies is one
+//	          violation with the panic class as signature, not a dead shard
+//
+// Development switches (environment): C16_ONLY=batch|http|svc restricts the work list,
+// C16_KEEP_CHILD=1 keeps the child directories (stderr, progress log) under the work dir.
 package c16
